@@ -822,6 +822,8 @@ class Interp:
             self.fact(Z.eval_code(t) == Z.con["int"](v.t))
             self.fact(Z.evaluable(t))
             self.fact(z3.InRe(t, _INT_RE()))
+            c0 = z3.StrToCode(z3.SubString(t, 0, 1))
+            self.fact(z3.Implies(v.t >= 0, z3.And(c0 >= 48, c0 <= 57)))      # a non-negative int starts with a digit
             return SStr(t)
         if isinstance(v, SFloat):
             fin = Z.flt_str(v.r)
@@ -1201,6 +1203,9 @@ class Interp:
         val = SV(x)
         for f in seq.maps:
             val = f(val)
+        if getattr(seq, "enumerated", False):
+            val = STuple([SInt(z3.Length(seen)), val])
+        self.loop_index = z3.Length(seen)          # ghost: position of the generic iteration (for contract hooks)
         containers = {n: (v, _container_snapshot(v)) for n, v in fr.locals.items() if isinstance(v, (SList, SDict, SSet))
                       and n not in spec.havoc}
         self.assign(st.target, val, fr)
@@ -1237,6 +1242,8 @@ class Interp:
         The body's exceptions propagate (some element raises => the loop raises, on a path where the list is non-empty)."""
         if st.orelse:
             raise Unsupported("for/else over a symbolic sequence")
+        if getattr(seq, "enumerated", False):
+            raise Unsupported("enumerate() over a list of symbolic length needs a loop invariant")
         if not self.branch(z3.Length(seq.base) > 0):
             return
         lists_before = {n: (v, len(v.items)) for n, v in fr.locals.items() if type(v) is SList}
@@ -1651,6 +1658,8 @@ class Interp:
             t = self.truth(v)
             return (not t) if isinstance(t, bool) else SBool(z3.Not(t))
         if isinstance(node.op, ast.USub):
+            if isinstance(v, SV):
+                v = self.view(v)
             if isinstance(v, (int, float)):
                 return -v
             if isinstance(v, SInt):
@@ -1932,6 +1941,13 @@ class Interp:
                 return obj[key]
             except (KeyError, IndexError) as e:
                 self.raise_(type(e), str(e))
+        if isinstance(obj, SStr) and isinstance(key, (int, SInt)) and not isinstance(key, bool):
+            n = z3.Length(obj.t)
+            k = z3.IntVal(key) if isinstance(key, int) else key.t
+            if not self.branch(z3.And(k >= -n, k < n)):
+                self.raise_(IndexError, "string index out of range")
+            pos = z3.If(k >= 0, k, n + k)
+            return SStr(z3.SubString(obj.t, pos, 1))
         if isinstance(obj, type) or obj in (list, dict, set, tuple):
             return obj      # typing subscript like list[str]
         if isinstance(obj, SOpaque) and hasattr(obj, "getitem"):
